@@ -20,16 +20,31 @@ open PdeVerif PdeVerif.Grids
 section
 variable {K : Type} [Field K] [LinearOrder K] [IsStrictOrderedRing K]
 
-/-! ### 0. which grid objects exist -/
+/-! ### 0. which grid objects exist
 
-/-- the invariants of the objects the constructors can produce (see `construct_valid`) -/
-def GridObj.Valid : GridObj K → Prop
-  | .unit s p => s ≠ [] ∧ (∀ n ∈ s, 1 ≤ n) ∧ p.length = s.length
-  | .cartesian b s p =>
-    b ≠ [] ∧ s.length = b.length ∧ p.length = s.length ∧ (∀ n ∈ s, 1 ≤ n) ∧ ∀ x ∈ b, x.1 ≤ x.2
-  | .polar ri ro n => 0 ≤ ri ∧ ri < ro ∧ 1 ≤ n
-  | .spherical ri ro n => 0 ≤ ri ∧ ri < ro ∧ 1 ≤ n
-  | .cylindrical ri ro _ _ nr nz _ => 0 ≤ ri ∧ ri < ro ∧ 1 ≤ nr ∧ 1 ≤ nz
+`GridObj.Valid` is defined next to the constructors in `Model/Serialize.lean` (with `<` and its
+negation, as the constructors test it).  Over an ordered field it reads as follows; section 0b
+proves that every object a constructor or `from_state` returns is `Valid`. -/
+
+theorem valid_unit (s : List Nat) (p : List Bool) :
+    (GridObj.unit s p : GridObj K).Valid ↔ s ≠ [] ∧ (∀ n ∈ s, 1 ≤ n) ∧ p.length = s.length := Iff.rfl
+
+theorem valid_cartesian (b : List (K × K)) (s : List Nat) (p : List Bool) :
+    (GridObj.cartesian b s p).Valid ↔
+      b ≠ [] ∧ s.length = b.length ∧ p.length = s.length ∧ (∀ n ∈ s, 1 ≤ n) ∧ ∀ x ∈ b, x.1 ≤ x.2 := by
+  simp only [GridObj.Valid, not_lt]
+
+theorem valid_polar (ri ro : K) (n : Nat) :
+    (GridObj.polar ri ro n).Valid ↔ 0 ≤ ri ∧ ri < ro ∧ 1 ≤ n := by
+  simp only [GridObj.Valid, not_lt, Nat.cast_zero]
+
+theorem valid_spherical (ri ro : K) (n : Nat) :
+    (GridObj.spherical ri ro n).Valid ↔ 0 ≤ ri ∧ ri < ro ∧ 1 ≤ n := by
+  simp only [GridObj.Valid, not_lt, Nat.cast_zero]
+
+theorem valid_cylindrical (ri ro zl zh : K) (nr nz : Nat) (pz : Bool) :
+    (GridObj.cylindrical ri ro zl zh nr nz pz).Valid ↔ 0 ≤ ri ∧ ri < ro ∧ 1 ≤ nr ∧ 1 ≤ nz := by
+  simp only [GridObj.Valid, not_lt, Nat.cast_zero]
 
 /-! ### helper lemmas: printing followed by parsing -/
 
@@ -121,7 +136,7 @@ theorem grid_state_roundtrip (g : GridObj K) (hg : g.Valid) :
     simp [GridObj.cls, GridObj.state, classFromState, pop, lookup, erase, mkUnit, checkShape_shapeVal s h1 h2, cartesianPeriodic_flagsVal p s.length h3, unused,
       bind, Except.bind]
   | cartesian b s p =>
-    obtain ⟨h1, h2, h3, h4, h5⟩ := hg
+    obtain ⟨h1, h2, h3, h4, h5⟩ := (valid_cartesian b s p).mp hg
     have hs : s ≠ [] := by
       intro h; subst h; cases b with
       | nil => exact h1 rfl
@@ -135,15 +150,15 @@ theorem grid_state_roundtrip (g : GridObj K) (hg : g.Valid) :
     simp [GridObj.cls, GridObj.state, classFromState, pop, lookup, erase, mkCartesian, cartesianBounds_pairs b h1 h5, hsh, cartesianPeriodic_flagsVal p s.length h3,
       unused, bind, Except.bind]
   | polar ri ro n =>
-    obtain ⟨h0, h1, h2⟩ := hg
+    obtain ⟨h0, h1, h2⟩ := (valid_polar ri ro n).mp hg
     simp [GridObj.cls, GridObj.state, classFromState, pop, lookup, erase, mkRadial, checkShape_shapeVal [n] (by simp) (by simpa using h2),
       parseRadius_radiusVal ri ro h0 h1, unused, bind, Except.bind]
   | spherical ri ro n =>
-    obtain ⟨h0, h1, h2⟩ := hg
+    obtain ⟨h0, h1, h2⟩ := (valid_spherical ri ro n).mp hg
     simp [GridObj.cls, GridObj.state, classFromState, pop, lookup, erase, mkRadial, checkShape_shapeVal [n] (by simp) (by simpa using h2),
       parseRadius_radiusVal ri ro h0 h1, unused, bind, Except.bind]
   | cylindrical ri ro zl zh nr nz pz =>
-    obtain ⟨h0, h1, h2, h3⟩ := hg
+    obtain ⟨h0, h1, h2, h3⟩ := (valid_cylindrical ri ro zl zh nr nz pz).mp hg
     simp [GridObj.cls, GridObj.state, classFromState, pop, lookup, erase, mkCylindrical, checkShape_shapeVal [nr, nz] (by simp) (by simp [h2, h3]),
       parseRadius_radiusVal ri ro h0 h1, unused, bind, Except.bind, pairVal]
 
@@ -220,6 +235,431 @@ theorem state_injective (a b : GridObj K) (ha : a.Valid) (hb : b.Valid) (hc : a.
   have h2 := grid_state_roundtrip b hb
   rw [hc, h, h2] at h1
   cases h1; rfl
+
+/-! ### 2b. every object a constructor or `from_state` returns is `Valid`
+
+The round-trip theorems above are stated for `Valid` objects.  This section shows that the set of
+`Valid` objects contains everything that can occur: the results of the four constructors (for every
+argument tree they accept) and therefore of every `from_state` / `copy`. -/
+
+theorem mapM_except_ok {α β ε : Type} (f : α → Except ε β) :
+    ∀ (l : List α) (r : List β), l.mapM f = .ok r →
+      r.length = l.length ∧ ∀ y ∈ r, ∃ x ∈ l, f x = .ok y := by
+  intro l
+  induction l with
+  | nil =>
+    intro r h
+    simp only [List.mapM_nil, pure, Except.pure, Except.ok.injEq] at h
+    subst h
+    simp
+  | cons a t ih =>
+    intro r h
+    simp only [List.mapM_cons, bind, Except.bind] at h
+    cases hf : f a with
+    | error e => simp [hf] at h
+    | ok b =>
+      cases ht : t.mapM f with
+      | error e => simp [hf, ht] at h
+      | ok u =>
+        simp only [hf, ht, pure, Except.pure, Except.ok.injEq] at h
+        subst h
+        obtain ⟨h1, h2⟩ := ih u ht
+        refine ⟨by simp [h1], ?_⟩
+        intro y hy
+        rcases List.mem_cons.mp hy with rfl | hy
+        · exact ⟨a, by simp, hf⟩
+        · obtain ⟨x, hx, hx'⟩ := h2 y hy
+          exact ⟨x, by simp [hx], hx'⟩
+
+theorem shapeEntry_ok (v : Val K) (n : Nat) (h : shapeEntry v = .ok n) : 1 ≤ n := by
+  cases v <;> simp only [shapeEntry] at h <;> try (cases h)
+  split at h
+  · cases h; assumption
+  · cases h
+
+theorem checkShape_ok (v : Val K) (s : List Nat) (h : checkShape v = .ok s) :
+    s ≠ [] ∧ ∀ n ∈ s, 1 ≤ n := by
+  cases v <;> simp only [checkShape] at h <;> try (cases h)
+  · split at h
+    · cases h; simp; assumption
+    · cases h
+  · split at h
+    · cases h
+    · rename_i l hl
+      obtain ⟨h1, h2⟩ := mapM_except_ok shapeEntry l s h
+      constructor
+      · intro e; subst e; cases l <;> simp_all
+      · intro n hn
+        obtain ⟨x, _, hx⟩ := h2 n hn
+        exact shapeEntry_ok x n hx
+
+theorem cuboidPosSize_le (pos x : K) : (cuboidPosSize pos x).1 ≤ (cuboidPosSize pos x).2 := by
+  unfold cuboidPosSize
+  split
+  · rename_i hx
+    have : x < 0 := by simpa using hx
+    simp only
+    linarith
+  · rename_i hx
+    have : 0 ≤ x := by simpa using hx
+    simp only
+    linarith
+
+theorem cuboidBounds_le (lo hi : K) : (cuboidBounds lo hi).1 ≤ (cuboidBounds lo hi).2 := by
+  unfold cuboidBounds
+  simp only
+  split
+  · rename_i hx
+    have : hi - lo < 0 := by simpa using hx
+    simp only
+    linarith
+  · rename_i hx
+    have : 0 ≤ hi - lo := by simpa using hx
+    simp only
+    linarith
+
+theorem cartesianBounds_ok (v : Val K) (b : List (K × K)) (h : cartesianBounds v = .ok b) :
+    ∀ x ∈ b, x.1 ≤ x.2 := by
+  unfold cartesianBounds at h
+  split at h
+  · cases h
+    intro x hx
+    simp only [List.mem_singleton] at hx
+    subst hx
+    exact cuboidPosSize_le _ _
+  · split at h
+    · split at h
+      · cases h
+      · cases h
+        intro x hx
+        obtain ⟨y, _, rfl⟩ := List.mem_map.mp hx
+        exact cuboidPosSize_le _ _
+    · split at h
+      · cases h
+        intro x hx
+        obtain ⟨y, _, rfl⟩ := List.mem_map.mp hx
+        exact cuboidPosSize_le _ _
+      · split at h
+        · cases h
+          intro x hx
+          obtain ⟨y, _, rfl⟩ := List.mem_map.mp hx
+          exact cuboidBounds_le _ _
+        · cases h
+  · cases h
+
+theorem cartesianPeriodic_ok (d : Nat) (v : Val K) (p : List Bool) (h : cartesianPeriodic d v = .ok p) :
+    p.length = d := by
+  unfold cartesianPeriodic at h
+  split at h
+  · cases h; simp
+  · split at h
+    · cases h
+    · rename_i l hl
+      have := (mapM_except_ok flagEntry l p h).1
+      omega
+  · cases h
+
+theorem cartesianShape_ok (d : Nat) (v : Val K) (s : List Nat) (h : cartesianShape d v = .ok s) :
+    s.length = d ∧ s ≠ [] ∧ ∀ n ∈ s, 1 ≤ n := by
+  unfold cartesianShape at h
+  simp only [bind, Except.bind] at h
+  cases hc : checkShape v with
+  | error e => simp [hc] at h
+  | ok s0 =>
+    obtain ⟨hne, hge⟩ := checkShape_ok v s0 hc
+    simp only [hc] at h
+    by_cases hcond : s0.length = 1 ∧ 1 < d
+    · simp only [hcond, and_self, if_true, List.length_replicate, ne_eq, not_true_eq_false, if_false] at h
+      cases h
+      refine ⟨by simp, ?_, ?_⟩
+      · intro e
+        have := congrArg List.length e
+        simp at this
+        omega
+      · intro n hn
+        have := (List.mem_replicate.mp hn).2
+        subst this
+        cases s0 with
+        | nil => exact absurd rfl hne
+        | cons a t => simpa using hge a (by simp)
+    · simp only [hcond, if_false] at h
+      split at h
+      · cases h
+      · rename_i hd
+        cases h
+        exact ⟨(not_not.mp hd).symm, hne, hge⟩
+
+theorem parseRadius_ok (v : Val K) (r : K × K) (h : parseRadius v = .ok r) :
+    ¬ (r.1 < ((0:Nat) : K)) ∧ r.1 < r.2 := by
+  have key : ∀ a b : K, parseRadius.checkRadii a b = .ok r → ¬ (r.1 < ((0:Nat) : K)) ∧ r.1 < r.2 := by
+    intro a b hk
+    unfold parseRadius.checkRadii at hk
+    split at hk
+    · cases hk
+    · split at hk
+      · cases hk; constructor <;> assumption
+      · cases hk
+  unfold parseRadius at h
+  split at h
+  · exact key _ _ h
+  · exact key _ _ h
+  · cases h
+  · cases h
+  · cases h
+
+/-- **every `UnitGrid` the constructor returns is a valid object** -/
+theorem mkUnit_valid (shape periodic : Val K) (g : GridObj K) (h : mkUnit shape periodic = .ok g) :
+    g.Valid := by
+  unfold mkUnit at h
+  simp only [bind, Except.bind] at h
+  cases hs : checkShape shape with
+  | error e => simp [hs] at h
+  | ok s =>
+    simp only [hs] at h
+    cases hp : cartesianPeriodic s.length periodic with
+    | error e => simp [hp] at h
+    | ok p =>
+      simp only [hp] at h
+      cases h
+      obtain ⟨h1, h2⟩ := checkShape_ok shape s hs
+      exact ⟨h1, h2, cartesianPeriodic_ok _ _ _ hp⟩
+
+/-- **every `CartesianGrid` the constructor returns is a valid object** (non-empty ordered bounds,
+one count `≥ 1` and one flag per axis) -/
+theorem mkCartesian_valid (bounds shape periodic : Val K) (g : GridObj K)
+    (h : mkCartesian bounds shape periodic = .ok g) : g.Valid := by
+  unfold mkCartesian at h
+  simp only [bind, Except.bind] at h
+  cases hb : cartesianBounds bounds with
+  | error e => simp [hb] at h
+  | ok b =>
+    simp only [hb] at h
+    cases hs : cartesianShape b.length shape with
+    | error e => simp [hs] at h
+    | ok s =>
+      simp only [hs] at h
+      cases hp : cartesianPeriodic s.length periodic with
+      | error e => simp [hp] at h
+      | ok p =>
+        simp only [hp] at h
+        cases h
+        obtain ⟨h1, h2, h3⟩ := cartesianShape_ok _ shape s hs
+        refine (valid_cartesian b s p).mpr ⟨?_, h1, cartesianPeriodic_ok _ _ _ hp, h3, cartesianBounds_ok bounds b hb⟩
+        intro e
+        subst e
+        apply h2
+        exact List.eq_nil_of_length_eq_zero h1
+
+/-- **every `PolarSymGrid` / `SphericalSymGrid` the constructor returns is a valid object**
+(`0 ≤ r_inner < r_outer`, at least one cell) -/
+theorem mkRadial_valid (sph : Bool) (radius shape : Val K) (g : GridObj K)
+    (h : mkRadial sph radius shape = .ok g) : g.Valid := by
+  unfold mkRadial at h
+  simp only [bind, Except.bind] at h
+  cases hs : checkShape shape with
+  | error e => simp [hs] at h
+  | ok s =>
+    simp only [hs] at h
+    obtain ⟨h1, h2⟩ := checkShape_ok shape s hs
+    split at h
+    · cases h
+    · rename_i hl
+      have hl' : s.length = 1 := not_not.mp hl
+      cases hr : parseRadius radius with
+      | error e => simp [hr] at h
+      | ok r =>
+        simp only [hr] at h
+        obtain ⟨r1, r2⟩ := parseRadius_ok radius r hr
+        have hn : 1 ≤ s.headD 1 := by
+          cases s with
+          | nil => simp at hl'
+          | cons a t => simpa using h2 a (by simp)
+        cases sph <;> simp only [Bool.false_eq_true, if_false, if_true] at h <;> cases h <;>
+          exact ⟨r1, r2, hn⟩
+
+/-- **every `CylindricalSymGrid` the constructor returns is a valid object** -/
+theorem mkCylindrical_valid (radius boundsZ shape periodicZ : Val K) (g : GridObj K)
+    (h : mkCylindrical radius boundsZ shape periodicZ = .ok g) : g.Valid := by
+  unfold mkCylindrical at h
+  simp only [bind, Except.bind] at h
+  cases hs : checkShape shape with
+  | error e => simp [hs] at h
+  | ok s =>
+    simp only [hs] at h
+    obtain ⟨_, h2⟩ := checkShape_ok shape s hs
+    split at h
+    · cases h
+    · rename_i nn hnn
+      split at h
+      · cases h
+      · rename_i zz hzz
+        split at h
+        · cases h
+        · rename_i pz hpz
+          cases hr : parseRadius radius with
+          | error e => simp [hr] at h
+          | ok r =>
+            simp only [hr] at h
+            cases h
+            obtain ⟨r1, r2⟩ := parseRadius_ok radius r hr
+            have : 1 ≤ nn.1 ∧ 1 ≤ nn.2 := by
+              split at hnn
+              · cases hnn; exact ⟨h2 _ (by simp), h2 _ (by simp)⟩
+              · cases hnn; exact ⟨h2 _ (by simp), h2 _ (by simp)⟩
+              · cases hnn
+            exact ⟨r1, r2, this.1, this.2⟩
+
+/-- **whatever a class's `from_state` returns is a valid object**, for every state dictionary
+(well-formed or not) -/
+theorem classFromState_valid (c : GridClass) (d : Dict K) (g : GridObj K)
+    (h : classFromState c d = .ok g) : g.Valid := by
+  have hun : ∀ (d' : Dict K) (g' : GridObj K), unused d' g' = .ok g → g' = g := by
+    intro d' g' hu
+    unfold unused at hu
+    split at hu
+    · cases hu; rfl
+    · cases hu
+  cases c <;> simp only [classFromState, bind, Except.bind] at h
+  · -- unit
+    cases h1 : pop "shape" d with
+    | error e => simp [h1] at h
+    | ok a1 =>
+      simp only [h1] at h
+      cases h2 : pop "periodic" a1.2 with
+      | error e => simp [h2] at h
+      | ok a2 =>
+        simp only [h2] at h
+        cases hm : mkUnit a1.1 a2.1 with
+        | error e => simp [hm] at h
+        | ok g' =>
+          simp only [hm] at h
+          rw [← hun _ _ h]
+          exact mkUnit_valid _ _ _ hm
+  · -- cartesian
+    cases h1 : pop "bounds" d with
+    | error e => simp [h1] at h
+    | ok a1 =>
+      simp only [h1] at h
+      cases h2 : pop "shape" a1.2 with
+      | error e => simp [h2] at h
+      | ok a2 =>
+        simp only [h2] at h
+        cases h3 : pop "periodic" a2.2 with
+        | error e => simp [h3] at h
+        | ok a3 =>
+          simp only [h3] at h
+          cases hm : mkCartesian a1.1 a2.1 a3.1 with
+          | error e => simp [hm] at h
+          | ok g' =>
+            simp only [hm] at h
+            rw [← hun _ _ h]
+            exact mkCartesian_valid _ _ _ _ hm
+  · -- polar
+    cases h1 : pop "radius" d with
+    | error e => simp [h1] at h
+    | ok a1 =>
+      simp only [h1] at h
+      cases h2 : pop "shape" a1.2 with
+      | error e => simp [h2] at h
+      | ok a2 =>
+        simp only [h2] at h
+        cases hm : mkRadial false a1.1 a2.1 with
+        | error e => simp [hm] at h
+        | ok g' =>
+          simp only [hm] at h
+          rw [← hun _ _ h]
+          exact mkRadial_valid _ _ _ _ hm
+  · -- spherical
+    cases h1 : pop "radius" d with
+    | error e => simp [h1] at h
+    | ok a1 =>
+      simp only [h1] at h
+      cases h2 : pop "shape" a1.2 with
+      | error e => simp [h2] at h
+      | ok a2 =>
+        simp only [h2] at h
+        cases hm : mkRadial true a1.1 a2.1 with
+        | error e => simp [hm] at h
+        | ok g' =>
+          simp only [hm] at h
+          rw [← hun _ _ h]
+          exact mkRadial_valid _ _ _ _ hm
+  · -- cylindrical
+    cases h1 : pop "radius" d with
+    | error e => simp [h1] at h
+    | ok a1 =>
+      simp only [h1] at h
+      cases h2 : pop "bounds_z" a1.2 with
+      | error e => simp [h2] at h
+      | ok a2 =>
+        simp only [h2] at h
+        cases h3 : pop "shape" a2.2 with
+        | error e => simp [h3] at h
+        | ok a3 =>
+          simp only [h3] at h
+          cases h4 : pop "periodic_z" a3.2 with
+          | error e => simp [h4] at h
+          | ok a4 =>
+            simp only [h4] at h
+            cases hm : mkCylindrical a1.1 a2.1 a3.1 a4.1 with
+            | error e => simp [hm] at h
+            | ok g' =>
+              simp only [hm] at h
+              rw [← hun _ _ h]
+              exact mkCylindrical_valid _ _ _ _ _ hm
+
+/-- **whatever `GridBase.from_state` returns is a valid object**, for every JSON tree -/
+theorem fromState_valid (v : Val K) (g : GridObj K) (h : fromState v = .ok g) : g.Valid := by
+  unfold fromState at h
+  split at h
+  · simp only [bind, Except.bind] at h
+    rename_i d
+    cases h1 : pop "class" d with
+    | error e => simp [h1] at h
+    | ok a1 =>
+      simp only [h1] at h
+      split at h
+      · split at h
+        · cases h
+        · split at h
+          · cases h
+          · split at h
+            · cases h
+            · exact classFromState_valid _ _ _ h
+      · cases h
+  · cases h
+
+/-- **composition: a restored (or copied) grid is itself restorable, exactly.**  Whatever tree
+`GridBase.from_state` accepts, the object it returns satisfies every round trip of the property:
+its own `state`, its own JSON tree and `copy()` give the same object again, and `==` holds. -/
+theorem restored_grid_roundtrips (v : Val K) (g : GridObj K) (h : fromState v = .ok g) :
+    classFromState g.cls g.state = .ok g ∧ fromState g.stateSerialized = .ok g ∧
+      g.copy = .ok g ∧ gridEq g g = true :=
+  have hv := fromState_valid v g h
+  ⟨grid_state_roundtrip g hv, grid_json_roundtrip g hv, (grid_copy_eq g hv).1, gridEq_refl g⟩
+
+/-- **composition: every constructed grid survives every round trip.**  For all constructor
+arguments the constructors accept (every spelling of bounds, shape, periodicity and radius the
+model parses), the object they build is restored exactly from its `state`, from its JSON tree and
+by `copy()`.  This closes the gap between `grid_state_roundtrip` (stated for `Valid` objects) and
+the objects that can actually occur. -/
+theorem constructed_grid_roundtrips (g : GridObj K)
+    (h : (∃ s p, mkUnit s p = .ok g) ∨ (∃ b s p, mkCartesian b s p = .ok g) ∨
+      (∃ sph r s, mkRadial sph r s = .ok g) ∨ (∃ r z s p, mkCylindrical r z s p = .ok g)) :
+    g.Valid ∧ classFromState g.cls g.state = .ok g ∧ fromState g.stateSerialized = .ok g ∧
+      g.copy = .ok g := by
+  have hv : g.Valid := by
+    rcases h with ⟨s, p, h⟩ | ⟨b, s, p, h⟩ | ⟨sph, r, s, h⟩ | ⟨r, z, s, p, h⟩
+    · exact mkUnit_valid _ _ _ h
+    · exact mkCartesian_valid _ _ _ _ h
+    · exact mkRadial_valid _ _ _ _ h
+    · exact mkCylindrical_valid _ _ _ _ _ h
+  exact ⟨hv, grid_state_roundtrip g hv, grid_json_roundtrip g hv, (grid_copy_eq g hv).1⟩
+
+/-- the copy of a copy: `copy` is idempotent on everything it returns -/
+theorem copy_valid (g c : GridObj K) (h : g.copy = .ok c) : c.Valid ∧ c.copy = .ok c := by
+  have hv := classFromState_valid _ _ _ h
+  exact ⟨hv, (grid_copy_eq c hv).1⟩
 
 /-! ### 3. derived quantities are functions of bounds and shape -/
 
@@ -638,7 +1078,8 @@ theorem cyl_state_old_not_injective (ri ro zl zh : K) (nr nz : Nat) (pz : Bool)
     classFromState .cylindrical (cylStateOld (GridObj.cylindrical ri ro zl zh nr nz pz)) =
       .ok (GridObj.cylindrical 0 ro zl zh nr nz pz) := by
   have hro : (0 : K) < ro := lt_trans h0 h1
-  refine ⟨⟨le_of_lt h0, h1, hr, hz⟩, ⟨le_refl _, hro, hr, hz⟩, ?_, rfl, ?_⟩
+  refine ⟨(valid_cylindrical ..).mpr ⟨le_of_lt h0, h1, hr, hz⟩,
+    (valid_cylindrical ..).mpr ⟨le_refl _, hro, hr, hz⟩, ?_, rfl, ?_⟩
   · intro h
     injection h with h _
     exact absurd h (ne_of_gt h0)
@@ -941,6 +1382,25 @@ example : (GridObj.cartesian [((-1 : ℚ), 2), (0, 1 / 2)] [3, 3] [false, true])
 example : (GridObj.unit [4, 2] [true, false] : GridObj ℚ).Valid := by simp [GridObj.Valid]
 example : (GridObj.polar (0 : ℚ) 2 3).Valid := by norm_num [GridObj.Valid]
 example : (GridObj.spherical (1 / 2 : ℚ) 2 1).Valid := by norm_num [GridObj.Valid]
+
+/-- the hypotheses of `constructed_grid_roundtrips` are satisfiable: the constructors accept an
+annular periodic cylinder given with a radius pair and a single shape number, a reversed Cartesian
+interval (flipped by `Cuboid`), upper-bounds-only Cartesian bounds with a repeated shape, a unit
+grid from an `int`, and a disk from a scalar radius - and return the expected objects -/
+example : mkCylindrical (K := ℚ) (.list [.num 1, .num 3]) (.list [.num 0, .num 10]) (.nat 4) (.bool true) =
+    .ok (.cylindrical 1 3 0 10 4 4 true) := by rfl
+example : (match mkCartesian (K := ℚ) (.list [.list [.num 2, .num (-1)]]) (.nat 3) (.bool false) with
+    | .ok (.cartesian b s p) => decide (b = [(-1, 2)] ∧ s = [3] ∧ p = [false])
+    | _ => false) = true := by decide +kernel
+example : (match mkCartesian (K := ℚ) (.list [.num 2, .num 3, .num (1 / 2)]) (.nat 2)
+      (.list [.bool true, .bool true, .bool false]) with
+    | .ok (.cartesian b s p) => decide (b = [(0, 2), (0, 3), (0, 1 / 2)] ∧ s = [2, 2, 2] ∧ p = [true, true, false])
+    | _ => false) = true := by decide +kernel
+example : mkUnit (K := ℚ) (.nat 4) (.bool true) = .ok (.unit [4] [true]) := by rfl
+example : mkRadial (K := ℚ) false (.num 2) (.nat 3) = .ok (.polar 0 2 3) := by rfl
+/-- ... and reject what the package rejects -/
+example : (match mkRadial (K := ℚ) true (.list [.num 2, .num 1]) (.nat 3) with
+    | .error e => some e | .ok _ => none) = some Err.valueError := by rfl
 
 /-- the round trip of the annular cylinder, evaluated: the inner radius is in the state (as a pair)
 and comes back -/
